@@ -39,6 +39,12 @@ Theorem C01_month_names : forall y s k s', -4712 <= y <= 6000 ->
   mkEpoch [VInt y; VStr s'; VInt 1] = mkEpoch [VInt y; VInt k; VInt 1].
 Proof. exact month_names_agree. Qed.
 
+(* ... also on the last day of the month, e.g. 29 February of a leap year under the rule in force *)
+Theorem C01_month_names_lastday : forall y s k s', -4712 <= y <= 6000 ->
+  In (s, k) month_names -> In s' (spellings s) -> valid y k (mlen y k) = true ->
+  mkEpoch [VInt y; VStr s'; VInt (mlen y k)] = mkEpoch [VInt y; VInt k; VInt (mlen y k)].
+Proof. exact month_names_lastday. Qed.
+
 Theorem C01_anchors :
   mkEpoch [VInt (-4712); VInt 1; VFloat 1.5%float] = VObj cEpoch [VFloat 0%float] /\
   Epoch_mjd B0 (mkEpoch [VInt 1858; VInt 11; VInt 17]) = VFloat 0%float /\
@@ -50,4 +56,5 @@ Redirect "C01_roundtrip.assumptions" Print Assumptions C01_roundtrip.
 Redirect "C01_refused.assumptions" Print Assumptions C01_refused.
 Redirect "C01_consecutive.assumptions" Print Assumptions C01_consecutive.
 Redirect "C01_month_names.assumptions" Print Assumptions C01_month_names.
+Redirect "C01_month_names_lastday.assumptions" Print Assumptions C01_month_names_lastday.
 Redirect "C01_anchors.assumptions" Print Assumptions C01_anchors.
